@@ -170,9 +170,12 @@ def skeleton(toks, path):
     prev = None          # text of previous significant token
     prevkind = None
     n = len(toks)
+    closers = set()      # indices of the `)` that close a widening conversion T::from( ... )
     for k in range(n):
         kind, t, line = toks[k]
         nxt = toks[k + 1][1] if k + 1 < n else None
+        if k in closers:
+            sk.append(')')
         if kind == 'int':
             sk.append(lit(t))
         elif kind == 'float':
@@ -191,6 +194,13 @@ def skeleton(toks, path):
                     sk.append(BINOPS[t])
             elif t == '[' and ((prevkind == 'ident' and prev not in PREFIX_CTX) or prev in (')', ']', '?')):
                 sk.append('index')
+            elif t == '(' and not ((prevkind == 'ident' and prev not in PREFIX_CTX) or prev in (')', ']', '?', '>', '!')):
+                # grouping parenthesis (or tuple): part of the expression shape
+                e = match_close(toks, k)
+                if e < 0:
+                    die('%s:%d: unbalanced parenthesis' % (path, line))
+                closers.add(e)
+                sk.append('(')
         elif kind == 'ident':
             if t == 'as' and prev != 'use':
                 # cast: target type = following path tokens up to a non-path token
@@ -202,10 +212,29 @@ def skeleton(toks, path):
                     die('%s:%d: `as` without a type' % (path, line))
                 sk.append('as:' + ''.join(ty))
             elif t in INTTYPES and nxt == '::' and k + 2 < n and toks[k + 2][1] in ('from', 'try_from', 'MAX', 'MIN', 'BITS'):
-                sk.append(t + '::' + toks[k + 2][1])
+                if k + 3 < n and toks[k + 3][1] == '(':
+                    # the operand of a conversion is delimited, so that `i64::from(a).pow(2)` and
+                    # `i64::from(a.pow(2))` have different skeletons
+                    e = match_close(toks, k + 3)
+                    if e < 0:
+                        die('%s:%d: unbalanced conversion' % (path, line))
+                    closers.add(e)
+                    sk.append(t + '::' + toks[k + 2][1] + '(')
+                else:
+                    sk.append(t + '::' + toks[k + 2][1])
             elif prev == '.' and nxt in ('(', '::'):
                 if t in METHODS or t.startswith(PREFIXES):
-                    sk.append('.' + t)
+                    if nxt == '(':
+                        e = match_close(toks, k + 1)
+                        if e < 0:
+                            die('%s:%d: unbalanced call' % (path, line))
+                        if e == k + 2:
+                            sk.append('.' + t)          # no arguments
+                        else:
+                            closers.add(e)
+                            sk.append('.' + t + '(')
+                    else:
+                        sk.append('.' + t)
             elif nxt == '!' and t in MACROS:
                 sk.append(t + '!')
             elif prev == '::' and nxt == '(' and (t.startswith(PREFIXES) or t in ('pow', 'abs', 'div_euclid', 'rem_euclid')):
